@@ -529,6 +529,36 @@ def c15_solvers(S, rng, mc):
         S.check(not bad, "C15:solvePDE-modifies-other-input", "solvePDE changed a coefficient variable or the mesh", inp, bad[:4], "unchanged")
         if not np.all(np.isfinite(np.asarray(phi._value))):
             return
+    # ---- a REFUSED solvePDE call (unknown term after valid ones) leaves no trace: the variable, its cached boundary
+    #      system and the terms are what they were, and the corrected call gives what a fresh variable gives
+    #      (seeded changes C15-m11 / C02-m11 / C04-m11 / C07-m12 / C12-m12: accumulation into the cached term)
+    def private_state(v):
+        out = [np.asarray(v._value).tobytes()]
+        bt = getattr(v, "_BCsTerm", None)
+        if bt is not None:
+            out += [bt[0].toarray().tobytes(), np.asarray(bt[1]).tobytes()]
+        return out
+    tt = pf.transientTerm(phi, 0.5, 1.0)
+    good = [tt] + reused
+    before = private_state(phi)
+    twin = pf.CellVariable(mc.m, np.asarray(phi.value).copy(), make_bcs(mc, spec))
+    raised = None
+    try:
+        pf.solvePDE(phi, good + ["not a term"])
+    except Exception as ex:
+        raised = type(ex).__name__
+    S.check(raised == "TypeError", "C15:refused-solvePDE-no-TypeError", "solvePDE accepted an unknown term object", inp, raised, "TypeError")
+    if raised is not None:
+        S.check(private_state(phi) == before, "C15:refused-solvePDE-leaves-trace",
+                "a solvePDE call that was refused (unknown term after valid ones) changed the variable's values or its cached boundary system", inp, None, "unchanged")
+        bad = [p for (_, p, k, v), a in zip(pre_terms, snap_terms) if not same_payload(a, payload(k, v))]
+        S.check(not bad, "C15:refused-solvePDE-modifies-terms", "a refused solvePDE call changed an equation term", inp, bad[:4], "terms unchanged")
+        tt2 = pf.transientTerm(twin, 0.5, 1.0)
+        pf.solvePDE(phi, good); pf.solvePDE(twin, [tt2] + reused)
+        a_, b_ = np.asarray(phi.value), np.asarray(twin.value)
+        if np.all(np.isfinite(a_)) and np.all(np.isfinite(b_)):
+            S.check(bool(np.allclose(a_, b_, rtol=1e-9, atol=1e-9 * (1 + float(np.max(np.abs(b_)))))), "C15:retry-after-refused-solvePDE-differs",
+                    "the corrected call after a refused solvePDE differs from the same solve on a fresh variable", inp, float(np.max(np.abs(a_ - b_))), 0.0)
     # BC coefficients of the solution variable are inputs too
     bcnow = [np.asarray(getattr(getattr(phi.BCs, s), x)).tobytes() for s in SIDES for x in "abc"]
     bcref = [np.asarray(getattr(getattr(make_bcs(mc, spec), s), x)).tobytes() for s in SIDES for x in "abc"]
